@@ -367,6 +367,7 @@ def witness_plan():
 
 TRAP_OF = {"ChunksExhausted2": "ChunksExhausted"}
 ALIGNED_TARGETS = ("ChunksExhausted", "ChunksExhausted2", "Saturated")
+HEAVY_TARGETS = ("ExpiredDiscard", "ChunksExhausted2", "Saturated", "TwoPubs")     # > 30 s of TLC each
 
 
 def witnesses(ctx, targets, regenerate):
@@ -511,10 +512,17 @@ def validate(ctx, pid, trace, jobs, label, max_rounds=6):
             what = f"invariant {v.invariant} fails on the state reached after {describe(bad)}"
         elif bad.get("bad"):
             owner = {"C02"}
-            what = f"bytes of held sample(s) {bad['bad']} changed (canary mismatch) after {describe(bad)}"
+            what = (f"bytes of held sample(s) {bad['bad']} changed or are no longer mapped (canary mismatch) after "
+                    f"{describe(bad)}")
         elif bad.get("a") == "recv" and bad.get("cok") == 0:
             owner = {"C01", "C02"}
             what = f"received payload is not byte-identical to what was written: {describe(bad)}"
+        elif any(r.get("k") == "alt" for r in run[:rel]):
+            # inside / behind the alternatives of a concurrent execution: TLC reports the furthest record reached
+            # by ANY linearization
+            owner = event_owner(bad) or {"C01", "C02", "C08"}
+            what = (f"no linearization of the overlapping calls of the concurrent execution is explained by the "
+                    f"specification (furthest: {describe(bad)})")
         else:
             owner = event_owner(bad)
             what = f"the specification cannot explain {describe(bad)}"
@@ -525,7 +533,8 @@ def validate(ctx, pid, trace, jobs, label, max_rounds=6):
             ctx.report(vp.Violation(
                 f"{label}: {what}; QoS {short_reset(run[0])}",
                 replay={"kind": "trace", "qos": {k: run[0].get(k) for k in run[0] if k != "k"},
-                        "history": [describe(r) for r in run[1:rel]][-300:], "first_unexplained": bad,
+                        "history": [describe(r) if r.get("k") == "op" else r.get("k") for r in run[1:rel]][-300:],
+                        "first_unexplained": bad,
                         "invariant": v.invariant, "job": job,
                         "cmd": "drv-pubsub exec --work <dir> --jobs <file containing [job]> --out t.ndjson ; "
                                "TRACE=t.ndjson tlc spec/api/PubSubTrace"},
@@ -652,7 +661,9 @@ def roundtrip(ctx, pid, targets, tail_fn, need_events, nsim, depth, ngen, steps,
     quick, seed = ctx.quick, ctx.seed
     plan = witness_plan()
     rnd = random.Random(seed)
-    regen = set(targets) if not quick else set(rnd.sample(sorted(targets), min(2, len(targets))))
+    # quick: two of the cheap targets are regenerated by TLC in this run, the others come from the committed cache
+    light = sorted(t for t in targets if t not in HEAVY_TARGETS)
+    regen = set(targets) if not quick else set(rnd.sample(light, min(2, len(light))))
     wits = witnesses(ctx, targets, regen)
     jobs, labels = [], []
     for t in targets:
@@ -995,6 +1006,100 @@ def expired_jobs(variants):
                 payload, variant = variants[n % len(variants)][:2]
                 jobs.append({"cfg": dict(q, payload=payload, variant=variant), "program": prog})
     return jobs
+
+
+# ---------------------------------------------------------------------------------------------
+# real concurrency under the deterministic scheduler: publisher thread || subscriber thread on ONE connection
+
+def conc_jobs(quick):
+    """Concurrent programs for `drv-pubsub conc`: a sequential prologue builds a state (subscriber at full
+    borrow / full buffer, ...), then the publisher thread and the subscriber thread run their calls under the
+    scheduler (every schedule with <= bound preemptions at the atomic accesses of the connection), then a
+    sequential epilogue saturates every holder class again.  With one publisher and one subscriber the port
+    calls are linearizable w.r.t. PubSub.tla; strategy DiscardData (no handler: every call is one action)."""
+    jobs = []
+    for buf, borrow, overflow, hist, variant, payload in ((2, 2, False, 0, "local", "u64"), (1, 1, False, 1, "ipc", "slice"),
+                                                          (2, 1, True, 1, "local", "slice"), (1, 2, True, 0, "ipc", "u64")):
+        q = qos(maxpubs=1, maxsubs=1, bufmax=buf, hist=hist, borrow=borrow, loan=2, overflow=overflow,
+                payload=payload, variant=variant)
+        pre = [{"a": "create_sub", "s": 1, "buf": buf, "req": 0}, {"a": "create_pub", "p": 1}]
+        pre += (_send(1) + _take(1, 1, keep=True)) * borrow + _send(1, buf) + [{"a": "loan", "p": 1}]
+        # the subscriber returns everything it owns while the publisher sends (reclaim ... push)
+        sub = [{"a": "drop_sample", "s": 1, "id": 0}] * borrow + _take(1, buf)
+        pub = [{"a": "send", "p": 1, "id": 0}]
+        post = _take(1, 1) + [{"a": "recv", "s": 1}]
+        post += (_send(1) + _take(1, 1, keep=True)) * borrow + _send(1, buf) + [{"a": "recv", "s": 1}, {"a": "probe", "p": 1}]
+        post += [{"a": "drop_sample", "s": 1, "id": 0}] * borrow + _take(1, buf + 1) + [{"a": "probe", "p": 1}, {"a": "has", "s": 1}]
+        jobs.append({"cfg": q, "pre": pre, "pub": pub, "sub": sub, "post": post, "bound": 1, "runs": 400})
+        if quick and len(jobs) == 2:
+            break       # quick: the first two configurations, every schedule with one preemption
+        if not quick:
+            # longer phases, two preemptions
+            pub2 = [{"a": "send", "p": 1, "id": 0}, {"a": "loan", "p": 1}, {"a": "send", "p": 1, "id": 0}, {"a": "probe", "p": 1}]
+            sub2 = sub + _take(1, 1) + [{"a": "has", "s": 1}]
+            jobs.append({"cfg": q, "pre": pre, "pub": pub2, "sub": sub2, "post": post, "bound": 2, "runs": 3000})
+    return jobs
+
+
+def expand_conc(recs):
+    """conc records -> alternatives: one per linearization of the overlapping calls (TraceIO.tla)"""
+    out, stats = [], {"blocks": 0, "alternatives": 0, "max_alternatives": 0}
+    for r in recs:
+        if r.get("k") != "conc":
+            out.append(r)
+            continue
+        ops = [(o["c"], o["r"], o["rec"]) for o in r["ops"]]
+        lins = vp.linearizations(ops, limit=3000)
+        seen, uniq = set(), []
+        for l in lins:
+            key = json.dumps(l, sort_keys=True)
+            if key not in seen:
+                seen.add(key)
+                uniq.append(l)
+        stats["blocks"] += 1
+        stats["alternatives"] += len(uniq)
+        stats["max_alternatives"] = max(stats["max_alternatives"], len(uniq))
+        out += vp.alt_block(uniq)
+    return out, stats
+
+
+def concurrent_phase(ctx, pid, mode_extra=None):
+    """publisher thread || subscriber thread under vlib::sched on the real ports; every execution is validated
+    as the set of its linearizations by PubSubTrace (AltJump)."""
+    jobs = conc_jobs(ctx.quick)
+    if mode_extra is None:
+        mode_extra = () if ctx.quick else ("random",)
+    d = ctx.path("conc", "x")[:-2]
+    total = {"executions": 0, "overlapping": 0, "exhausted": 0, "jobs": len(jobs), "alternatives": 0, "max_alternatives": 0}
+    pieces, metas = [], []
+    for mode in ("dfs",) + tuple(mode_extra):
+        jp = os.path.join(d, f"conc-{mode}.jobs.json")
+        out = os.path.join(d, f"conc-{mode}.raw.ndjson")
+        js = jobs if mode == "dfs" else [dict(j, runs=60 if ctx.quick else 400) for j in jobs]
+        with open(jp, "w") as f:
+            json.dump(js, f)
+        _, so, _ = vp.run_driver(DRIVER, ["conc", "--work", d, "--jobs", jp, "--out", out, "--mode", mode], timeout=3000)
+        summ = vp.last_json_line(so)
+        for j in summ["jobs"]:
+            total["executions"] += j["executions"]
+            total["overlapping"] += j["overlapping"]
+            total["exhausted"] += 1 if j.get("exhausted") else 0
+            if j["anomalies"]:
+                ctx.note(f"concurrent phase ({mode}): {j['anomalies']} execution(s) did not complete (recorded as panic events)")
+        recs, st = expand_conc(vp.read_ndjson(out))
+        total["alternatives"] += st["alternatives"]
+        total["max_alternatives"] = max(total["max_alternatives"], st["max_alternatives"])
+        exp = os.path.join(d, f"conc-{mode}.ndjson")
+        vp.write_ndjson(exp, recs)
+        nruns = len(vp.split_runs(recs))
+        before = len(ctx.violations)
+        validate(ctx, pid, exp, [{"conc": mode, "jobs_file": jp}] * nruns, f"concurrent-{mode}")
+        ctx.evaluations += nruns
+        if len(ctx.violations) == before and summ["counts"].get("send:ok", 0) == 0:
+            raise vp.ToolError("vacuous concurrent phase: no send executed")
+    if total["overlapping"] == 0:
+        raise vp.ToolError("vacuous concurrent phase: no execution with overlapping calls")
+    ctx.coverage["concurrent_phase"] = total
 
 
 def regen_witnesses():
